@@ -14,20 +14,25 @@ sys.path.insert(0, os.path.join(vf.VERIF, "lib"))
 import c08gen as G  # noqa: E402
 
 META = {
-    "text": "Theorems (Coq, no axioms) over a literal model of libStatus/Status (after the proposed repairs F9 and F21) and of the "
-            "node's add-block/reorg call sequence, for all delivery histories with restarts at every point: the LIB height never "
-            "decreases; a block numbered <= LIB and a reorganisation forking below the LIB change nothing; every main-chain block at "
-            "or below a LIB ever reported stays on the main chain forever; the LIB is on the main chain; a proposed LIB has received "
-            "confirmsRequired = 2n/3+1 confirming blocks whose windows contain it (distinct producers when windows are honest); at "
-            "least n'-(n'-1)/3 proposals are >= a newly computed LIB; two quorums of 2n/3+1 producers share a correct one when "
-            "f < n/3; restart restores the LIB exactly and is idempotent.  The global agreement clause is REFUTED on the model and "
-            "reproduced on two real Status objects every run (F14: Confirms never validated; F14b: equivocation + partition, no "
-            "lock), as is equality of the restored proposal map with the one computed online; both are known findings.",
-    "note": "Trusted: Coq kernel/vm_compute; the engine's mirror of ChainService.addBlock/reorg around Status (chain package itself "
-            "is covered by C05/C07); generator; gob round-trip through the real Save/bootLoader; producer-set changes (bps "
-            "snapshots) are modelled (gc with a producer list) but only exercised directly, all heights < bootstrap height.",
-    "technique": "Coq invariant proofs over executable Gallina model + vm_compute correspondence against the real dpos.Status "
-                 "+ multi-node disagreement search",
+    "text": "Theorems (Coq, no axioms) over a literal model of libStatus/Status (after the repairs F9, F21, F22 committed in /repo) and "
+            "of the node's add-block/reorg call sequence, for all producer counts and all delivery histories (arbitrary blocks and "
+            "Confirms, forks) with restarts at every point: the LIB height never decreases; a block numbered <= LIB and a "
+            "reorganisation forking below the LIB change nothing; every main-chain block at or below a LIB ever reported stays "
+            "forever; the LIB, all proposals and all confirms elements are on the main chain; a node's successive LIBs lie on one "
+            "branch; a block becomes a proposed LIB only after 2n/3+1 main-chain blocks whose windows contain it (distinct "
+            "producers when windows are honest); at least n'-(n'-1)/3 proposals are >= a computed LIB; two quorums of 2n/3+1 "
+            "producers share a correct one when f < n/3; restart restores the LIB exactly and is idempotent; in every reachable "
+            "world of the protocol model every node's LIB is on its own main chain.  The global agreement clause is REFUTED on "
+            "the protocol model and reproduced on real Status objects every run (F14: Confirms never validated; F14b: "
+            "equivocation + partition, no lock); so is equality of the restored proposal map with the one computed online; these "
+            "are known findings.",
+    "note": "Trusted: Coq kernel/vm_compute; 60-bit observation hash; the dpos engine's mirror of ChainService.addBlock/reorg around "
+            "Status (its call order is compared with the real ChainService by a second engine; block execution and orphan "
+            "handling are C05/C07's); generator; gob round-trip through the real Save/bootLoader; producer-set changes (bps "
+            "snapshots) are modelled (gc with a producer list) but only exercised directly, all heights < bootstrap height; "
+            "ForceResetHeight not modelled.",
+    "technique": "Coq invariant proofs over executable Gallina model + vm_compute correspondence against the real dpos.Status and "
+                 "chain.ChainService + multi-node disagreement search",
 }
 
 RES = {"dup": 0, "le_lib": 1, "orphan": 2, "invalid": 3, "connected": 4, "side": 5, "veto": 6, "reorg": 7}
@@ -212,6 +217,46 @@ def direct_predicates(sc, obs, stats):
     return fails
 
 
+def honest_history(sc, obs):
+    """Re-validate a multi-node scenario against the implementation's observations: every block of
+    a correct producer was made on the best block of its own node, with Confirms = no - LpbNo of
+    that node's status, and was connected there at once.  Returns None if valid, else a reason."""
+    byz = set(sc.get("byz", []))
+    selfs = sc.get("self", [])
+    blocks = {0: (None, 0, -1, 0)}
+    last = {}
+    j = 0
+    fresh = set()
+    for op in sc["ops"]:
+        if op[0] == "B":
+            _, i, parent, bp, conf = op
+            blocks[i] = (parent, blocks[parent][1] + 1, bp, conf)
+            fresh.add(i)
+            continue
+        o = obs[j]
+        j += 1
+        if op[0] == "D":
+            nd, i = op[1], op[2]
+            parent, no, bp, conf = blocks[i]
+            if i in fresh and bp not in byz:
+                fresh.discard(i)
+                if nd >= len(selfs) or selfs[nd] != bp:
+                    return "block %d of correct producer %d first delivered to node %d" % (i, bp, nd)
+                p = last.get(nd)
+                pbest, plpb = (p["state"]["best"], p["state"]["lpb"]) if p else (0, 0)
+                if parent != pbest:
+                    return "block %d of correct producer %d not on its node's best block %d" % (i, bp, pbest)
+                if conf != no - plpb:
+                    return "block %d of correct producer %d has Confirms %d, honest value %d" % (i, bp, conf, no - plpb)
+                if o["res"] != "connected":
+                    return "block %d of correct producer %d not connected on its own node (%s)" % (i, bp, o["res"])
+            elif i in fresh:
+                fresh.discard(i)
+        if op[0] in ("D", "R"):
+            last[op[1]] = o
+    return None
+
+
 def agreement(sc, obs):
     """Final LIBs of the honest nodes must lie on one branch.  Returns None or a description."""
     blocks = {0: (None, 0)}
@@ -365,6 +410,12 @@ def run(ctx):
     corpus = load_corpus()
     scen = list(corpus)
     scen += G.generate(rng, quick)
+    if getattr(ctx, "replay", None):
+        # bin/check C08 --replay replays/C08/<n>.json: run only the recorded scenario
+        rp = json.load(open(ctx.replay)).get("replay", {})
+        one = rp.get("scenario") or (rp.get("cases") or [{}])[0].get("scenario")
+        if one and not one.get("chain"):
+            scen = [one]
     obs = run_engine(ctx, binpath, scen, "c08")
     T['engine'] = round(time.time() - t0, 1)
     t0 = time.time()
@@ -380,9 +431,15 @@ def run(ctx):
         for key, what, detail in fails:
             pred_fail.append((key, what, {"scenario": sc, "detail": detail}))
         if sc.get("nodes", 1) > 1:
-            dis = agreement(sc, ob)
-            if dis:
-                disagreements.append((sc, dis))
+            why = honest_history(sc, ob)
+            if why:
+                stats["multi_node_discarded_not_honest"] = stats.get("multi_node_discarded_not_honest", 0) + 1
+                if sc.get("name"):
+                    ctx.notes.append("corpus %s is not an honest history on this tree: %s" % (sc["name"], why))
+            else:
+                dis = agreement(sc, ob)
+                if dis:
+                    disagreements.append((sc, dis))
         for nd, term, src in node_cases(sc, ob):
             cases.append(term)
             case_src.append((sc, nd, src))
@@ -447,10 +504,13 @@ def run(ctx):
                                       "|confirms|, (id, no, bp, range, left)*, |main|, ids*"})
         corr_broken = ("model/implementation differ on %d of %d node histories" % (len(bad), len(cases)), det)
 
-    nobs = sum(len(o) for o in obs)
+    nobs = sum(len(o) for o in obs) + sum(len(o) for o in cobs)
     ctx.cov["evaluations"] = nobs
     ctx.cov["traces_validated_against_impl"] = len(cases)
     ctx.cov["distinct_nontrivial"] = len(shapes)
+    ctx.cov["chain_service_tie"] = ("real ChainService.addBlock/reorg with a recording consensus stub (scripted LIB): the sequence of "
+                                    "VerifyTimestamp/NeedReorganization/Update/Save calls, best block and main chain equal the model's "
+                                    "deliver on %d deliveries" % sum(len(o) for o in cobs))
     ctx.cov["rule"] = ("one evaluation = one delivery/restart step on a real Status compared with the model (LIB, Prpsd, confirms list "
                        "with confirmsLeft, LpbNo, confirmsRequired, best, main chain, outcome); distinct = distinct (producer count, "
                        "op, outcome, |Prpsd|, |confirms|, LIB height capped at 40) tuples")
@@ -459,6 +519,8 @@ def run(ctx):
     dist["corpus"] = len(corpus)
     dist["node_histories"] = len(cases)
     dist["producer_counts"] = sorted({s["n"] for s in scen})
+    dist["exhaustive_families"] = ("all producer schedules: n=2 len 5" if quick else
+                                   "all producer schedules: n=2 len 9, n=3 len 7, n=4 len 5")
     dist["multi_node_scenarios"] = sum(1 for s in scen if s.get("nodes", 1) > 1)
     dist["disagreements_found"] = len(disagreements)
     ctx.cov["input_distribution"] = dist
